@@ -945,3 +945,57 @@ def canon(extra=None, tables=None, keep_clock=False):
 
 def state_hash(extra=None, tables=None, keep_clock=False):
     return state_hash_of(dump_tables(tables), extra, keep_clock)
+
+
+# ---------------------------------------------------------------- monitors
+def install_expr_monitor():
+    """C05: evaluating expressions never modifies the stored context.
+    Wraps mistral.expressions.evaluate / evaluate_recursively: structural
+    copy of the context before, comparison after; differences are logged in
+    W.events as ('ctx_mutated', ...)."""
+    import copy
+    from mistral import expressions as expr_mod
+    if getattr(expr_mod, '_verif_wrapped', False):
+        return
+    expr_mod._verif_wrapped = True
+
+    def snap(ctx):
+        ds = getattr(ctx, 'dicts', None)
+        if ds is None:
+            ds = [ctx]
+        try:
+            return copy.deepcopy([dict(d) if d is not None else None
+                                  for d in ds]), ds
+        except Exception:
+            return None, ds
+
+    def wrap(fn):
+        def w(expression, context):
+            before, ds = snap(context)
+            try:
+                return fn(expression, context)
+            finally:
+                if before is not None:
+                    after = [dict(d) if d is not None else None for d in ds]
+                    if after != before:
+                        W.events.append(('ctx_mutated', str(expression)[:80],
+                                         json.dumps(before, default=str)[:300],
+                                         json.dumps(after, default=str)[:300]))
+        w.__name__ = fn.__name__
+        return w
+
+    expr_mod.evaluate = wrap(expr_mod.evaluate)
+    _orig_rec = expr_mod.evaluate_recursively
+
+    def rec(data, context):
+        before, ds = snap(context)
+        try:
+            return _orig_rec(data, context)
+        finally:
+            if before is not None:
+                after = [dict(d) if d is not None else None for d in ds]
+                if after != before:
+                    W.events.append(('ctx_mutated', str(data)[:80],
+                                     json.dumps(before, default=str)[:300],
+                                     json.dumps(after, default=str)[:300]))
+    expr_mod.evaluate_recursively = rec
